@@ -680,6 +680,10 @@ def random_tree(rng, k, depth, top=True):
         sc = rng.choice([2.0, -2.0, 0.5, -0.5, 4.0, 1.5, -3.0])
         if lf[0] == 'ZeroFunctional':
             sc = abs(sc)   # linear: becomes a left multiplication, which must be positive
+        if lf[0] == 'IndicatorZero':
+            # the constraint set is a single point and IndicatorZero tests x.norm() == 0 exactly:
+            # only exactly invertible scalings keep the proximal point feasible under rounding
+            sc = rng.choice([2.0, -2.0, 0.5, -0.5, 4.0])
         return ['rscale', sc, sub]
     if r < 0.62:
         return ['lscale', rng.choice([2.0, 0.5, 4.0, 0.25, 3.0, 0.7]), sub]
@@ -804,7 +808,7 @@ def probe_minimiser(orc, p, pool, rng, n_rand, use_nm, S, finite_everywhere, dee
         phi_p, best[0], [round(v, 6) for v in best[2][:8]], best[1]))
 
 
-def nearly_feasible(feval, p, pool, S):
+def nearly_feasible(feval, p, pool, S, x=None):
     """f(p) = inf: a boundary point of the constraint set may be infeasible by one rounding error
     (rounding is outside the property).  Look for a feasible point within 1e-12 (relative) of p
     (far below the 1e-9 tolerance of the objective comparison): towards other feasible points, or
@@ -815,6 +819,11 @@ def nearly_feasible(feval, p, pool, S):
     for q in pool:
         cands.append(p + 1e-12 * (q - p))
         cands.append(unflat(S, pf + 1e-12 * scale * np.sign(flat(q) - pf)))
+    if x is not None:
+        # x - p is an outward normal of the constraint set at p: step inwards
+        xf = flat(x)
+        cands.append(unflat(S, pf - 1e-12 * scale * np.sign(xf - pf)))
+        cands.append(unflat(S, pf - 1e-12 * (xf - pf)))
     cands.append(unflat(S, np.round(pf, 12)))
     cands.append(unflat(S, np.round(pf, 11)))
     for c in cands:
@@ -906,7 +915,7 @@ def check_case(case, sg, xlist, rng, deep=0):
                                                                      str(e)[:120])))
             return probs, info
         if not math.isfinite(fp):
-            wit = nearly_feasible(feval, p, [qq for _, qq in qs] + [0 * p], S)
+            wit = nearly_feasible(feval, p, [qq for _, qq in qs] + [0 * p], S, x=x)
             if wit is not None:
                 p, fp = wit
         if not math.isfinite(fp):
@@ -1181,6 +1190,8 @@ def iterate_cases(ctx, specs, deep=False, per_spec_sigmas=None):
             xs = x_choices(case, rng, sg, exact_space)
             if ctx.quick and not deep:
                 xs = [xs[0], rng.choice(xs[1:]), rng.choice(xs[2:])]
+            elif not deep:
+                xs = xs[:2] + rng.sample(xs[2:], 2)
             for xc, xlist in xs:
                 yield case, sk, sg, xc, xlist
 
@@ -1190,7 +1201,7 @@ def run(ctx, deep=False):
     _REPORTED.clear()
     found, missing = introspect(ctx)
     specs = leaf_specs(rng, ctx.quick)
-    specs += tree_specs(rng, 120 if ctx.quick else 500)
+    specs += tree_specs(rng, 120 if ctx.quick else 400)
     recs, lines = [], []
     seen_labels = set()
     for case, sk, sg, xc, xlist in iterate_cases(ctx, specs, deep=deep):
